@@ -28,6 +28,10 @@ CLAIMS = {
  "C11": ("Theorems: de (ser s) = Some s for every well-formed shape (serde round trip), ser injective, and Display is a PREFIX-FREE code on shapes whose member names are identifier-like "
          "([A-Za-z0-9_-]+), hence injective; a witness shows collisions exist outside that domain (as the property's quantifier allows). Correspondence byte for byte: serde_json::to_string vs "
          "the modelled compact writer, to_string() vs display, round trip, on level-1 + wrappers + random deep shapes with odd keys; oracle: round trip, determinism, pairwise collision search.", "6/C11"),
+ "C12": ("Theorems about the instrumented twins (which return result AND number of calls, mirroring short-circuit order): is_subset makes at most |a|*|b| calls and the twin computes "
+         "the same answer; one merger makes at most min(|a|,|b|) merger calls and 2|a||b| is_subset calls; merging n sources makes at most (total size) merger calls; single-document "
+         "inference makes one call per node on both paths. Correspondence: the real call counters (hooks) equal the twins' predictions EXACTLY on all level-1 pairs, random deep pairs and "
+         "thousands of documents. PARTIAL: the property's own measure (heap allocations) is measured by a counting allocator over depth/width/sources families and must stay within quadratic growth.", "6/C12"),
  "C17": ("Ten theorems give the defining equations of single-document inference for all documents: scalars, object = member names -> member shapes, "
          "array classification (equal -> Array, differing -> Tuple in order, objects -> folded Object) and the three key laws of the array-of-objects fold "
          "(union of keys, everywhere-present keys unchanged, partly-present keys optional). Oracle independent of the model: the implementation's result is "
@@ -43,7 +47,7 @@ CLAIMS = {
  "C10": ("Six theorems prove reflexivity, optional widening, null-in-optional and the similar laws for ALL well-formed shapes; model tied to /repo by "
          "all 103041 level-1 pairs plus random deep related pairs; statements re-evaluated on the implementation's own answers.", "6/C10"),
 }
-PARTIAL = {"C03": "Partial: theorem for n = 1 and reflexivity; n > 1 relies on correspondence + oracle with the KF2 class decided by oneof_free.", "C09": "Partial: the theorem covers the pairwise core and the 'd is the last source' case; semantic absorption for d in the middle of h is not a theorem."}
+PARTIAL = {"C12": "Partial by nature: allocator, stack and wall-clock are runtime; the theorems bound call counts, allocations are measured.", "C03": "Partial: theorem for n = 1 and reflexivity; n > 1 relies on correspondence + oracle with the KF2 class decided by oneof_free.", "C09": "Partial: the theorem covers the pairwise core and the 'd is the last source' case; semantic absorption for d in the middle of h is not a theorem."}
 
 def chk(pid):
     text, ref = CLAIMS[pid]
